@@ -62,8 +62,12 @@ func TestVerifC03(t *testing.T) {
 		if !r.Thorough() {
 			om.evTrailing = false
 		}
-		mdb := vw3Run(r, "replication-world/C03/messagedb-retained1", om, st, xs, true, ev.Pick(r, 3, 4), ev.Pick(r, 0, 1),
-			note+"; every node's durable log is a real MessageDB (pkg/db/message on Pebble, in-memory vfs) channel store; c1, c2 are proposed with ServerAllocatedMessageIDs, c3 without")
+		mnote := note + "; every node's durable log is a real MessageDB (pkg/db/message on Pebble, in-memory vfs) channel store; c1, c2 are proposed with ServerAllocatedMessageIDs, c3 without; plus commita = one record without an idempotency key proposed with ServerAllocatedMessageIDs"
+		mdb := vw3Run(r, "replication-world/C03/messagedb-retained1", om, st, xs, true, ev.Pick(r, 3, 4), 0, mnote)
+		if r.Thorough() {
+			mdb2 := vw3Run(r, "replication-world/C03/messagedb-retained1-faulty", om, st, xs, true, 3, 1, mnote)
+			mdb.States += mdb2.States
+		}
 		r.Guard("messagedb-world-states", mdb.States >= 100, "%d states explored over MessageDB-backed stores", mdb.States)
 	}
 	if pool != nil {
